@@ -82,6 +82,9 @@ try:
         pass
     if sorted(os.listdir(dest)) != ["keep"]:
         verdict(True, "a refused export changed the destination", observed=str(os.listdir(dest)))
+    import tarfile as _tf
+    if (_tf.REGTYPE, _tf.DIRTYPE, _tf.SYMTYPE) != (b"0", b"5", b"2"):
+        verdict(True, "tarfile type constants differ from the ones assumed by the specification", observed=repr((_tf.REGTYPE, _tf.DIRTYPE, _tf.SYMTYPE)))
     verdict(False, "no failing export among %d" % tried)
 finally:
     shutil.rmtree(base, ignore_errors=True)
